@@ -369,7 +369,11 @@ pub fn message_strategy(sz: MsgSize) -> impl Strategy<Value = Message> {
                     }
                 }
                 if let Some(e) = &edns {
-                    m.additional.push(opt_rr(e));
+                    // usually last, as senders write it; RFC 6891 6.1.1 lets it sit anywhere in
+                    // the additional section
+                    let n = m.additional.len();
+                    let at = if e.udp_size % 4 == 3 && n > 0 { (e.udp_size as usize / 4) % (n + 1) } else { n };
+                    m.additional.insert(at, opt_rr(e));
                 } else {
                     // without OPT there is no place for the extended rcode
                 }
